@@ -26,6 +26,7 @@ long g_last_now = 0;
 int g_ops_done = 0;
 int g_ran = 0;
 int g_stops = 0;
+bool g_aborted[2 * K + 4];   // waits the shadow expects to complete with operation_aborted
 bool g_in_run = false;
 
 void run_next_op();
@@ -34,7 +35,7 @@ void on_event(int id, error_code const& ec)
 {
 	long const now = now_ns();
 	vp_log(1, id, now, ecv(ec));
-	vp_assert(!ec, 10);
+	vp_assert((ecv(ec) == (g_aborted[id] ? E_ABORTED : 0)), 10);
 	// monotone, always
 	vp_assert(now >= g_last_now, 1);
 	if (g_head == g_tail)
@@ -84,7 +85,7 @@ void run_next_op()
 {
 	if (g_ops_done >= K) return;
 	++g_ops_done;
-	int const op = vp_choose(5);
+	int const op = vp_choose(6);
 	long const now = now_ns();
 	vp_log(2, op, now, 0);
 	if (op == 1 || op == 2)
@@ -110,6 +111,19 @@ void run_next_op()
 	else if (op == 4)
 	{
 		if (g_in_run) { g_sim->stop(); ++g_stops; }
+	}
+	else if (op == 5)
+	{
+		// cancel the most recently armed timer that is still pending: its wait completes now (posted) with
+		// operation_aborted, and it no longer takes part in the clock's jumps
+		int t = -1;
+		for (int i = 0; i < NT; ++i) if (g_st[i].pending && (t < 0 || g_st[i].seq > g_st[t].seq)) t = i;
+		if (t < 0) return;
+		std::size_t const n = g_timer[t]->cancel();
+		vp_assert(n == 1, 11);
+		g_st[t].pending = false;
+		g_aborted[g_st[t].id] = true;
+		g_fifo[g_tail++] = g_st[t].id;
 	}
 }
 
